@@ -86,6 +86,32 @@ CHECKS = {
     design_ref='DESIGN.md 5/C19',
     note=('Trusted: Coq kernel; ExtrOcamlBasic extraction (sample re-checked by vm_compute every run); OCaml driver and Python harness. Modelled, not verified: qvm/using.py and the USING branch of _exec_print. Python format/repr are re-implemented in Base/Dec.v and compared every run. Field boundaries come from the scanner.'),
     technique='Rocq proof over a hand-written Gallina model + differential correspondence against the implementation'),
+ 'C04': dict(
+    category='proof',
+    text=('33 closed Rocq theorems over Models/Layout.v (a faithful model of memlayout.py, the array header and the element index of _exec_arridx), for every record environment, declaration list, rank and bounds: every well-formed access path lies inside the frame or array segment; '
+          'distinct paths denote distinct cells (mixed-radix injectivity of row-major indexing); fields and elements are disjoint; STATIC names are distinct per (routine, name). Over the machine model Models/Cpu.v: store/storeidx/storeref change exactly one cell of one segment, reads change nothing, '
+          'an unset cell reads 0 or "", frame allocates a fresh segment whose locals are unset, by-value arguments become temporaries of the new frame and reference arguments stay the caller (segment, cell); arridx returns exactly elem_index. D14 and D15 are stated as _partial/_refuted theorems. '
+          'Tied to the code by the real memlayout functions on all declaration sequences of length <= 3/4 over 12 shapes, the real tick on constructed states for every memory instruction, and sentinel programs (write a distinct value to every location, read all back, by-reference chains, recursion) compiled by the real compiler at the six configurations and judged against an independent reference semantics.'),
+    design_ref='DESIGN.md 5/C04',
+    note=('Trusted: Coq kernel, ExtrOcamlBasic, OCaml driver, Python harness and its reference interpreter. Modelled, not verified: memlayout.py and the read*/readidx*/store*/deref*/refidx/arridx/frame instructions of cpu.py. '
+          'The code generator (gen_lvalue_ref, gen_code_for_args, gen_array_pass) is covered only by the sentinel correspondence. Open findings: D14, D15, D45-array-argument-reference.'),
+    technique='Rocq proof over hand-written Gallina model + differential correspondence (T-fn, T-isa, T-run sentinel programs)'),
+ 'C08': dict(
+    category='proof',
+    text=('Rocq theorems over the executable model of QvmCode.optimize and of the assembler offset computation (Models/Peephole.v): the assembler offsets, label addresses and code length ignore debug markers; optimize never moves or removes a marker and never rewrites across one; '
+          'with and without markers the level-2 code is reachable from the same unoptimised list by the seven (machine-level sound) rewrites, hence rewrite-equivalent. Per explored program, on the REAL artefacts: erase_marks(code with -g) = code without -g at levels 0/1, sections 1-3 byte-identical at every level, '
+          'acceptance identical, device events and outcome identical on the real machine (RESUME programs are the permitted exception), and the extracted model reproduces both real level-2 outputs from the real marked list.'),
+    design_ref='DESIGN.md 5/C08',
+    note=('Trusted: Coq kernel, extraction, OCaml driver, Python harness. The code generator is not modelled: that markers are the only difference between -g and no -g generation is checked per program (translation validation), not proved. Serialisation of the debug section is outside the model.'),
+    technique='Rocq proof over a hand-written model of the peephole pass/assembler offsets + per-program validation and differential correspondence'),
+ 'C14': dict(
+    category='proof',
+    text=('Rocq theorems about a lossless lexer for QBASIC text as qbee cuts it (Models/Lex.v): text and valid token layouts are in bijection; the canonical respelling canon is invariant under letter case of words, blanks and tabs between tokens (exact side condition), comment and empty-line changes and alternative relational spellings, '
+          'under all finite compositions of these in both directions (induction over compositions), and canon is idempotent. Tied to the code on every run: compile(t) and compile(canon t) have the same verdict and identical sections 1-4 at -O0 and -O2 over corpus + generated programs; seeded compositions of token-level and structural respellings '
+          '(including the unproved ones: colon join/split, LET, CALL forms, NEXT v, label renaming, renumbering, trailing colon, case in numbers) keep sections or device traces.'),
+    design_ref='DESIGN.md 5/C14',
+    note=('Trusted: Coq kernel, ExtrOcamlBasic, driver and Python harness. The pyparsing grammar is not modelled; that it factors through the tokens is tested, not proved. DATA payload and TAB handling carry known findings.'),
+    technique='Rocq proof over hand-written Gallina model + differential correspondence against the implementation'),
 }
 
 ALL = ['C%02d' % i for i in range(1, 21)]
